@@ -674,6 +674,8 @@ class World(object):
                     e.tag = ("src", op[1])
                     self.raised[("src", op[1])] = e
                     f.set_exception(e)
+                elif kind == "fn":
+                    f.set_result(self.fn(op[1] + ".fn", op[3]))
                 elif kind == "cancel":
                     r = Future.cancel(f)
                     if r:
